@@ -192,6 +192,8 @@ FEATURES = {
     # calls with keyword arguments whose callee resolves to something else than its spelling (keywords resolve through the called function)
     "kwcall": ("import functools as ft\ndef make(size=1, **kw):\n    return lambda f: f\nkwv = make(size=2, other=make(size=3))\n@make(size=4)\ndef decorated(p=make(size=5)): ...\n"
                "class KC:\n    v: make(size=7) = ft.partial(make, size=8)\n    def m(self, q=make(size=6)) -> make(size=9): ...\n"),
+    # objects local to __init__ (the visitor walks that body: they become members of the function)
+    "init-locals": "class IL:\n    def __init__(self, a):\n        import warnings\n        from os import path as osp_local\n        def callback(item: int = 0) -> int: ...\n        class Local:\n            lv = 1\n        self.count = a\n",
     "inherit": "import abc\nclass A(abc.ABC):\n    @abc.abstractmethod\n    def am(self): ...\n    x = 1\nclass B(A):\n    y = 2\n",
 }
 EXECUTABLE = list(FEATURES)
